@@ -321,7 +321,7 @@ class Core:
                 u = self._unpack_call(call)
                 if not u:
                     continue
-                ra = self.read_at_call(u[1])
+                ra = self.read_at_call(self._resolve(u[1]))
                 if not ra:
                     continue
                 t = n.targets[0]
@@ -356,6 +356,17 @@ class Core:
             if isinstance(n, ast.Call) and ast.unparse(n.func) == "len" and n.args and _root_name(n.args[0]) == self.buff \
                     and ".read(" not in ast.unparse(n):
                 self.role["nbytes"].add(ast.unparse(n))
+
+    def _resolve(self, e, depth=3):
+        """a local with a single plain assignment stands for the assigned expression"""
+        while depth and isinstance(e, ast.Name):
+            ds = self.hdefs.of(e.id)
+            if len(ds) == 1 and ds[0][0] == "assign":
+                e = ds[0][1]
+                depth -= 1
+            else:
+                break
+        return e
 
     def lin(self, e):
         """expression -> (k, c) meaning k*OFFSET + c"""
@@ -463,9 +474,30 @@ class Core:
             G, _, why, _ = failing[0]
             ctx.check("guard/" + role, label, False, hdr, "if %s" % norm(G.test), "header guard on %s does not reject %s: %s" % (role, what_wrong, why), node=G)
         else:
+            self._maybe_in_helper(role, keys)
             ctx.check("guard/" + role, label, False, hdr, "no guard on %s" % role,
                       "HeaderItem.__init__ has no `if` on %s (%s): %s is not rejected" % (role, ", ".join(sorted(keys)) or "no expression", what_wrong), node=hdr.node)
         return None
+
+    def _maybe_in_helper(self, role, keys):
+        """the guard may have been extracted into a helper: that is outside the fragment
+        this rule evaluates (exit 2), not evidence that the guard is gone"""
+        hdr = self.hdr
+        for c in (x for x in walk_no_nested(hdr.node) if isinstance(x, ast.Call)):
+            passes = any(_mentions(a, keys) for a in c.args) or any(_mentions(k.value, keys) for k in c.keywords)
+            callee = None
+            if isinstance(c.func, ast.Attribute) and isinstance(c.func.value, ast.Name) and c.func.value.id == "self" and hdr.cls is not None:
+                callee = hdr.cls.lookup(c.func.attr)
+            elif isinstance(c.func, ast.Name):
+                r = self.m.resolve_name(c.func.id)
+                callee = r[1] if r and r[0] == "func" else None
+            if callee is None or callee is self.read_at:
+                continue
+            has_raise = any(isinstance(n, ast.Raise) for n in walk_no_nested(callee.node))
+            mentions = any(isinstance(n, ast.If) and _mentions(n.test, keys) for n in walk_no_nested(callee.node))
+            if has_raise and (mentions or passes):
+                raise AnalysisError("HeaderItem.__init__: the %s check seems to have moved into helper %s; "
+                                    "guards inside helpers are outside the analysed fragment" % (role, callee.qualname))
 
     def check_header(self):
         ctx, hdr = self.ctx, self.hdr
@@ -514,8 +546,7 @@ class Core:
                     out += self._tv("adler32=0x%x, stored checksum=0x%x" % (a, c), G, env, [(self._is_adler, lambda call, ev, a=a: a), sc])
             return out
         Gc = self._decide("checksum", "adler32 != stored checksum raises", self.role["checksum"], ev_cs, "a stored checksum different from the computed Adler-32")
-        if Gc is not None:
-            self.check_checksum_operand(Gc)
+        self.check_checksum_operand()
 
         # header size
         def ev_hs(G):
@@ -531,17 +562,13 @@ class Core:
 
         self.check_packer_call()
 
-    def check_checksum_operand(self, G):
+    def check_checksum_operand(self):
         ctx, hdr = self.ctx, self.hdr
-        calls = [n for n in ast.walk(G.test) if self._is_adler(n)]
+        calls = [n for n in walk_no_nested(hdr.node) if self._is_adler(n)]
         for c in calls:
             ctx.count("checksum_operands")
             arg = c.args[0] if c.args else None
-            src = arg
-            if isinstance(arg, ast.Name):
-                ds = self.hdefs.of(arg.id)
-                if len(ds) == 1 and ds[0][0] == "assign":
-                    src = ds[0][1]
+            src = self._resolve(arg) if arg is not None else None
             ra = self.read_at_call(src) if src is not None else None
             inst = "checksum operand is read_at(buffer, offset+12) to EOF"
             if ra is None:
